@@ -1062,8 +1062,12 @@ class Interp:
         broke = False
         total = 0
         ticks = self.ticks
+        forked = 0
+        c_body = len(self.chooser.log)
         while True:
             c0 = len(self.chooser.log)
+            if c0 != c_body:
+                forked += 1  # the previous iteration's body needed a choice (e.g. `if <unknown>: break`)
             if not self.truth(self.eval(s.test, fr), s.test):
                 break
             # iterations count towards the bound when the loop test needed a choice, or when the previous
@@ -1073,7 +1077,9 @@ class Interp:
             total += 1
             if symbolic:
                 n += 1
-            if n > self.MAX_WHILE or total > 4096:
+            c_body = len(self.chooser.log)
+            # (a loop whose continuation is decided by choices in its body doubles the paths per iteration: 6 at most)
+            if n > self.MAX_WHILE or total > 4096 or forked > 6:
                 self.truncated.append(("while", self.site(s)))
                 raise PathAbort("while bound")
             self.emit("loop_iter", "while", [n], node=s, extra="symbolic" if symbolic else "concrete")
@@ -2134,6 +2140,9 @@ class Interp:
             if isinstance(obj, Obj) and getattr(obj.cls, "abstract_user", False):
                 return Cond(("hasattr", ("obj", obj.uid), name))
             return False
+        if isinstance(r, Ext) and r.role == "inherited" and isinstance(obj, Obj):
+            # the name is not defined in the repository: whether the third-party base class has it is not known
+            return Cond(("hasattr", ("obj", obj.uid), name))
         return True
 
     # ------------------------------------------------------------------ calls
